@@ -731,6 +731,141 @@ func repliesStmt(f *fn, s ast.Stmt) flow {
 }
 
 // ---------------------------------------------------------------------------
+// "authenticated means accepted": once a path has executed
+// state.Authenticated = true (directly or through a helper), no tagged NO/BAD
+// may follow on it. setsAuth(f): f contains such an assignment transitively.
+
+var setsAuthMemo = map[string]int{} // 0 unknown, 1 busy, 2 no, 3 yes
+
+func calleeOf(f *fn, x *ast.CallExpr) *fn {
+	if id, ok := x.Fun.(*ast.Ident); ok {
+		return funcs[f.pkg+"."+id.Name]
+	}
+	if se, ok := x.Fun.(*ast.SelectorExpr); ok {
+		if id, ok := se.X.(*ast.Ident); ok {
+			if _, isPkg := pkgDirs[id.Name]; isPkg {
+				return funcs[id.Name+"."+se.Sel.Name]
+			}
+		}
+	}
+	return nil
+}
+
+func nodeSetsAuth(f *fn, n ast.Node) bool {
+	found := false
+	ast.Inspect(n, func(m ast.Node) bool {
+		switch x := m.(type) {
+		case *ast.FuncLit: // defining a closure executes nothing
+			return false
+		case *ast.AssignStmt:
+			for i, l := range x.Lhs {
+				if src(l) == "state.Authenticated" && i < len(x.Rhs) && src(x.Rhs[i]) != "false" {
+					found = true
+				}
+			}
+		case *ast.CallExpr:
+			if t := calleeOf(f, x); t != nil && setsAuth(t) {
+				found = true
+			}
+		}
+		return !found
+	})
+	return found
+}
+
+func setsAuth(f *fn) bool {
+	k := f.pkg + "." + f.name
+	switch setsAuthMemo[k] {
+	case 1, 2:
+		return false
+	case 3:
+		return true
+	}
+	setsAuthMemo[k] = 1
+	r := nodeSetsAuth(f, f.decl.Body)
+	if r {
+		setsAuthMemo[k] = 3
+	} else {
+		setsAuthMemo[k] = 2
+	}
+	return r
+}
+
+func isRefusal(x *ast.CallExpr) bool {
+	if !isTaggedSend(x) {
+		return false
+	}
+	lit := x.Args[1].(*ast.CallExpr).Args[0].(*ast.BasicLit).Value
+	return strings.HasPrefix(lit, "\"%s NO") || strings.HasPrefix(lit, "\"%s BAD")
+}
+
+func nodeRefuses(f *fn, n ast.Node, seen map[string]bool) bool {
+	found := false
+	ast.Inspect(n, func(m ast.Node) bool {
+		if x, ok := m.(*ast.CallExpr); ok {
+			if isRefusal(x) {
+				found = true
+			} else if t := calleeOf(f, x); t != nil && !seen[t.pkg+"."+t.name] {
+				seen[t.pkg+"."+t.name] = true
+				if nodeRefuses(t, t.decl.Body, seen) {
+					found = true
+				}
+			}
+		}
+		return !found
+	})
+	return found
+}
+
+// refusalAfterAuth: in some block of some function reachable from a handler, a
+// statement that sets Authenticated is followed (later in the same block) by
+// code that can send a tagged NO/BAD. Returns the offending positions.
+func refusalAfterAuth() []string {
+	var out []string
+	for _, f := range funcs {
+		var visit func(list []ast.Stmt)
+		visit = func(list []ast.Stmt) {
+			for i, s := range list {
+				if nodeSetsAuth(f, s) {
+					// the setting statement itself may be an if/for containing both: look inside first
+					for _, later := range list[i+1:] {
+						if nodeRefuses(f, later, map[string]bool{}) {
+							out = append(out, fmt.Sprintf("%s:%d", f.file, fset.Position(later.Pos()).Line))
+						}
+					}
+				}
+				ast.Inspect(s, func(m ast.Node) bool {
+					switch x := m.(type) {
+					case *ast.SwitchStmt: // the clauses are alternatives, not a sequence
+						for _, c := range x.Body.List {
+							visit(c.(*ast.CaseClause).Body)
+						}
+						return false
+					case *ast.TypeSwitchStmt:
+						for _, c := range x.Body.List {
+							visit(c.(*ast.CaseClause).Body)
+						}
+						return false
+					case *ast.SelectStmt:
+						for _, c := range x.Body.List {
+							visit(c.(*ast.CommClause).Body)
+						}
+						return false
+					case *ast.BlockStmt:
+						visit(x.List)
+						return false
+					}
+					return true
+				})
+			}
+		}
+		visit(f.decl.Body.List)
+	}
+	sort.Strings(out)
+	return out
+}
+
+// ---------------------------------------------------------------------------
 // HandleSelect: is the selection cleared before any post-argument failure?
 
 func selectClearsFirst() bool {
@@ -880,6 +1015,9 @@ func main() {
 	}
 	fmt.Fprintf(&o, "Definition default_replies_once : bool := %s.\n", b(defTagged(hc, "cmd") && funcs["uid.HandleUID"] != nil && defTagged(funcs["uid.HandleUID"], "subCmd")))
 	fmt.Fprintf(&o, "Definition select_clears_first : bool := %s.\n", b(selectClearsFirst()))
-	fmt.Fprintf(&o, "Definition table : facts := mk_facts dispatch sites replies default_replies_once select_clears_first.\n")
+	raa := refusalAfterAuth()
+	fmt.Fprintf(&o, "(* tagged NO/BAD reachable after state.Authenticated := true: %v *)\n", raa)
+	fmt.Fprintf(&o, "Definition auth_is_final : bool := %s.\n", b(len(raa) == 0))
+	fmt.Fprintf(&o, "Definition table : facts := mk_facts dispatch sites replies default_replies_once select_clears_first auth_is_final.\n")
 	os.Stdout.Write(o.Bytes())
 }
